@@ -164,7 +164,25 @@ def check_cdist(ctx, qual="droplets.droplet_tracks.DropletTrackList.from_emulsio
                 if col is None:
                     ctx.undecided("EMPTY", tag, (fi, c), "point set not traced to a collection")
                     continue
+                if isinstance(fv.expand(c.args[k], c), (ast.ListComp, ast.GeneratorExp)) and fv.expand(c.args[k], c).generators[0].ifs:
+                    ctx.violate("INDEX", f"{site}:arg{k}:unfiltered", (fi, c),
+                                f"the points handed to cdist are a *filtered* selection of `{col}`, but the rows/columns of the distance matrix are used as indices into `{col}` itself: "
+                                "after the first skipped member every match is applied to the wrong track or droplet")
                 ok = guarded_nonempty(fv, c, col)
+                if k == 0 and all(x is not None for x in srcs):
+                    # the matching block may be skipped only because a point set is empty: any further condition (a cut-off value,
+                    # a flag) skips matches that the documented rule makes
+                    si_ = stmt_index(fv)
+                    extra_ = []
+                    for t_, pol_ in si_.guards(c):
+                        if not pol_:
+                            continue
+                        parts_ = t_.values if isinstance(t_, ast.BoolOp) and isinstance(t_.op, ast.And) else [t_]
+                        for part_ in parts_:
+                            if not any(nonempty_guard(part_, col_, True) for col_ in srcs):
+                                extra_.append(part_)
+                    ctx.decide(not extra_, "EMPTY", f"{site}:only-emptiness", (fi, c), "distance matching is skipped only for an empty point set",
+                               f"distance matching is also skipped when `{U(extra_[0]) if extra_ else ''}` fails: pairs the documented rule links (distance <= cut-off, e.g. distance 0 for a cut-off of 0) are not linked")
                 ctx.decide(ok, "EMPTY", tag, (fi, c), f"`{col}` is known non-empty when the distance matrix is built",
                            f"the points of `{col}` may be empty (a frame without droplets / no alive track) when `{U(c)[:50]}` is evaluated: cdist raises ValueError for an empty point set")
     return n
